@@ -36,7 +36,7 @@ ASSUMPTIONS = [
 BOUND = {
     "quick": "3 structures x 128 feature subsets x {AMBER, PARSE} x {default, "
     "--clean}",
-    "thorough": "4 structures (adds the nucleic strand) x 128 x 2 x 2",
+    "thorough": "4 structures (adds the nucleic strand) x 128 subsets x 6 force fields x 4 option sets",
 }
 FEATURES = ["altloc", "icode", "charge", "name4", "models", "negative",
             "waters"]
@@ -240,6 +240,15 @@ def compare(structure, feats, ff, opts):
                 {"exc": str(rc.exc_obj.__cause__ or rc.exc_obj)[:160]})
     fp, fc = fingerprint(rp, clean), fingerprint(rc, clean)
     if fp == fc:
+        # same model: the written atom records must be the same too
+        lp = [l for l in (rp.pqr_text or "").splitlines()
+              if l.startswith(("ATOM", "HETATM"))]
+        lc = [l for l in (rc.pqr_text or "").splitlines()
+              if l.startswith(("ATOM", "HETATM"))]
+        if lp != lc:
+            d = next(((a, b) for a, b in zip(lp, lc) if a != b),
+                     (f"{len(lp)} records", f"{len(lc)} records"))
+            return ("written-records-differ", {"pdb": d[0], "cif": d[1]})
         return None
     if len(fp) != len(fc):
         return ("atom-count-differs", {"pdb": len(fp), "cif": len(fc)})
@@ -297,11 +306,15 @@ def enumerate_cases(tier, seed):
     if tier == "thorough":
         structures.append("strand")
     cases = []
+    ffs = ("AMBER", "PARSE") if tier == "quick" else tuple(corpus.FFS)
+    optsets = ([], ["--clean"]) if tier == "quick" else (
+        [], ["--clean"], ["--noopt", "--nodebump"], ["--whitespace",
+                                                     "--keep-chain"])
     for s in structures:
-        for ff in ("AMBER", "PARSE"):
-            if s == "strand" and ff == "PARSE":
+        for ff in ffs:
+            if s == "strand" and ff not in corpus.NUCLEIC_FFS:
                 continue
-            for opts in ([], ["--clean"]):
+            for opts in optsets:
                 # split the 128 subsets into 4 cases for load balancing
                 subs = [list(x) for n in range(len(FEATURES) + 1)
                         for x in itertools.combinations(FEATURES, n)]
